@@ -1,5 +1,7 @@
 //! Assemble program text with given options.
-//! line:   A <TAB> budget <TAB> static(0|1) <TAB> matching(0|1) <TAB> main-hex [<TAB> name=hex;name=hex...]
+//! line:   A <TAB> budget <TAB> static(0|1) <TAB> matching(0|1) <TAB> main-hex [<TAB> name=hex;name=hex... [<TAB> defines]]
+//!         defines = name=value,name=value,... as after `-d` on the command line (value: true | false | [-]integer literal;
+//!         a bare name means true); they become opts.driver_symbol_defs exactly as src/driver.rs parse_define_arg builds them
 //! answer: OK <TAB> bits(0/1 string) <TAB> iterations <TAB> symbols(hex of format_default) <TAB> name=hexvalue:size;...
 //!       | ERR <TAB> number of top-level error messages  | PANIC | INCONSISTENT <TAB> detail
 use customasm::*;
@@ -30,6 +32,25 @@ fn main() {
             opts.max_iterations = budget;
             opts.optimize_statically_known = f[2] == "1";
             opts.optimize_instruction_matching = f[3] == "1";
+            if f.len() > 6 && !f[6].is_empty() {
+                for d in f[6].split(',') {
+                    let mut it = d.splitn(2, '=');
+                    let name = it.next().unwrap().to_string();
+                    let value = match it.next() {
+                        None | Some("true") => expr::Value::make_bool(true),
+                        Some("false") => expr::Value::make_bool(false),
+                        Some(v) => {
+                            let neg = v.starts_with('-');
+                            let digits = if neg { &v[1..] } else { v };
+                            match syntax::excerpt_as_bigint(None, diagn::Span::new_dummy(), digits) {
+                                Ok(b) => { use std::ops::Neg; expr::Value::make_integer(if neg { b.neg() } else { b }) }
+                                Err(()) => return "?".to_string(),
+                            }
+                        }
+                    };
+                    opts.driver_symbol_defs.push(asm::DriverSymbolDef { name, value });
+                }
+            }
             let a = asm::assemble(&mut report, &opts, &mut fs, &["main.asm"]);
             match (&a.output, report.has_errors(), a.error) {
                 (Some(o), false, false) => {
